@@ -1,6 +1,8 @@
 import BSModel.Driver.Util
 import BSModel.Model.Render
 import BSModel.Model.Reparse
+import BSModel.Model.RenderWritten
+import BSModel.Proofs.WriterMinimal
 import BSModel.Gen.Render
 import BSModel.Model.Entities
 import BSModel.Gen.Entities
@@ -12,6 +14,7 @@ import BSModel.Gen.Entities
     c05 trip   <flavour> <fmt> <tree>         the root's children as a forest:
                                               repr=<0|1> # emit=<events> # norm=<forest> # build=<forest> # norm2=<forest> # repr2=<0|1> # dst=<0|1 DoctypeStable> # grow=<n: characters the text gains on the second trip>
     c05 tripc  <void> <flavour> <fmt> <tree>  the same under a builder with `empty_element_tags` = D (default) | N (None) | - (empty set) | name;name
+    c05 written <void> <flavour> <fmt> <tree> rw=<0|1 RenderWritable> # text=<cps: writeText under minimalChoices of toWDocL>
     c05 top <rootAttr> <chain> <arg> <tbl> <tree>   `decode(formatter=arg)` incl. `formatter_for_name`/`_is_xml`:  D:<cps> | KeyError
     c05 sor <rootAttr> <chain> <arg|None> <tbl> <pname|N> <cls> <cps>   `string.output_ready(arg)`:  D:<cps> | KeyError
     c05 doctype <name|N> <pub|N> <sys|N>      `Doctype._string_for_name_and_ids` (tokens: N = None, e = "", else cps)
@@ -185,6 +188,15 @@ def trip (p : PCfg) (f : Fmt) (root : Node) : String :=
   let nrm := normaliseL p f ds
   s!"repr={bit (representableL p f ds)} # emit={"|".intercalate (evs.map showEv)} # norm={showForest nrm} # build={showForest (build p evs)} # norm2={showForest (normaliseL p f nrm)} # repr2={bit (representableL p f nrm)} # dst={bit (dstableL p (ctxOf p [rootFrame]) false ds)} # grow={grow p (ctxOf p [rootFrame]) ds}"
 
+/-- `RenderWritable` of the root's children and the text C04's writer writes for them under `minimalChoices` -/
+def written (p : PCfg) (f : Fmt) (root : Node) : String :=
+  let ds := root.kids
+  let W := toWDocL f ds
+  let c := BS.WriterMin.minimalChoices W
+  let ok := renderWritableL p.isVoid f ds && BS.WriterText.writableL p.isVoid c [] 0 W
+              && BS.Writer.representableL rootFrame.name p.isVoid W
+  s!"rw={bit ok} # text={showL (BS.WriterText.writeText p.isVoid c W)}"
+
 def withTree (toks : List String) (k : Node → String) : String :=
   match parseNode (toks.length + 1) toks with
   | some (root, []) => k root
@@ -202,6 +214,10 @@ def handle : List String → String
   | "trip" :: fl :: fm :: rest =>
     match findSpec fl fm with
     | some s => withTree rest (trip BS.Gen.C05.livePCfg (mkFmt s []))
+    | none => "no-such-formatter"
+  | "written" :: cf :: fl :: fm :: rest =>
+    match findSpec fl fm with
+    | some s => withTree rest (written (cfgOf cf) (mkFmt s []))
     | none => "no-such-formatter"
   | "tripc" :: cf :: fl :: fm :: rest =>
     match findSpec fl fm with
